@@ -417,6 +417,19 @@ class GVN:
 
     def _getitem(self, t: T) -> Form:
         base, idx = t.args
+        # final carry of an accumulating scan:  scan(...)[0][k]  /  scan(...)[0]
+        if idx.op == "const" and isinstance(idx.args[0], int) and not isinstance(idx.args[0], bool):
+            b0 = strip_wrappers(base)
+            cand = None
+            if b0.op == "getitem" and is_const(b0.args[1], 0) and strip_wrappers(b0.args[0]).op == "call" and \
+                    match_scan(strip_wrappers(b0.args[0])) is not None:
+                cand = (strip_wrappers(b0.args[0]), idx.args[0])
+            elif idx.args[0] == 0 and b0.op == "call" and match_scan(b0) is not None:
+                cand = (b0, None)
+            if cand is not None and not self.hyp.get(t):
+                acc = self._scan_accumulate(*cand)
+                if acc is not None:
+                    return acc
         v = self._n(base)
         key = self.idx_key(idx)
         i = idx.args[0] if idx.op == "const" and isinstance(idx.args[0], int) and not isinstance(
@@ -508,6 +521,10 @@ class GVN:
                 return self.lin1(self._n(recv), lambda a: self.atom("reshape", a, key))
             if meth == "sum":
                 key = ",".join(self.sshow(x, maxdepth=3) for x in pos) + str(sorted((k, self.sshow(v)) for k, v in kws.items()))
+                if not pos and not kws:
+                    full = self._full_sum(self._n(recv))
+                    if full is not None:
+                        return full
                 return self.lin1(self._n(recv), lambda a: self.atom("sum", a, key))
             if meth in ("diagonal", "trace", "flatten", "ravel", "transpose"):
                 key = ",".join(self.sshow(x, maxdepth=3) for x in pos)
@@ -518,6 +535,10 @@ class GVN:
                 x.op == "const" and isinstance(x.args[0], int) for x in pos[1].args):
             perm = tuple(x.args[0] for x in pos[1].args)
             return self.lin1(self._n(pos[0]), lambda a: self.atom("perm", a, perm) if a != 0 else 0)
+        if fn == "sum" and len(pos) == 1 and not kws:
+            full = self._full_sum(self._n(pos[0]))
+            if full is not None:
+                return full
         if fn in ("sum", "trace", "diag", "diagonal", "transpose", "real_if_close", "cumsum") and pos:
             key = ",".join(self.sshow(x, maxdepth=3) for x in pos[1:]) + str(
                 sorted((k, self.sshow(v)) for k, v in kws.items()))
@@ -624,6 +645,84 @@ class GVN:
         body = self.norm_loops(body)
         r = self._n(body)
         return self.lin1(r, lambda a: self.atom("stack", a) if a != 0 else self.atom("stack", 0))
+
+    def _full_sum(self, f: Form) -> Optional[Form]:
+        """sum() over every axis of contraction results is the full contraction (output letters dropped)."""
+        out: Form = {}
+        if not f:
+            return None
+        for a, c in f.items():
+            k = self.atom_keys[a]
+            if k[0] != "einsum":
+                return None
+            at = self._canon_einsum(list(k[1]), ())
+            out[at] = c_add(out.get(at, ZERO), c)
+        return f_clean(out)
+
+    def _refs(self, key, seen=None) -> set:
+        """atom ids reachable from an atom key (over-approximation: every small int is taken for an atom id)"""
+        if seen is None:
+            seen = set()
+        stack = [key]
+        while stack:
+            k = stack.pop()
+            if isinstance(k, tuple):
+                stack.extend(k)
+            elif isinstance(k, int) and not isinstance(k, bool) and 0 < k < len(self.atom_keys) and k not in seen:
+                seen.add(k)
+                stack.append(self.atom_keys[k])
+        return seen
+
+    def _kinds_below(self, a: int) -> set:
+        return {self.atom_keys[x][0] for x in self._refs(self.atom_keys[a]) | {a}}
+
+    def _scan_accumulate(self, sc_term: T, k: Optional[int]) -> Optional[Form]:
+        """Final carry (component k) of a scan whose body only accumulates:  c' = c + E(x)  with E a combination of
+        scalar contractions of per-iteration slices  ->  init + the same contractions with the scanned axis summed."""
+        sc = match_scan(sc_term)
+        if sc is None or sc[0].op != "closure":
+            return None
+        fcl, init, xs, length = sc
+        C, X = mk("scan_carry", init, 0), mk("scan_x", xs, 0)
+        body = self.norm_loops(self.ev.open_closure(fcl, [C, X], at_call=sc_term))
+        if body.op != "tuple" or len(body.args) != 2:
+            return None
+        newc = body.args[0]
+        comp = getitem(newc, const(k)) if k is not None else newc
+        prev = getitem(C, const(k)) if k is not None else C
+        f, fp = f_clean(self._n(comp)), f_clean(self._n(prev))
+        E = dict(f)
+        for a, c in fp.items():
+            if E.get(a) != c:
+                return None
+            del E[a]
+        out: Form = {}
+        for a, c in E.items():
+            key = self.atom_keys[a]
+            if key[0] != "einsum" or key[2]:
+                return None
+            g = self._fresh_letter()
+            new, saw = [], False
+            for b, subs in key[1]:
+                kb = self.atom_keys[b]
+                if kb[0] == "elem" and isinstance(kb[1], int):
+                    if {"elem", "carry"} & self._kinds_below(kb[1]):
+                        return None
+                    new.append((kb[1], (g,) + tuple(subs)))
+                    saw = True
+                else:
+                    if {"elem", "carry"} & self._kinds_below(b):
+                        return None
+                    new.append((b, tuple(subs)))
+            if not saw:
+                return None
+            at = self._canon_einsum(new, ())
+            out[at] = c_add(out.get(at, ZERO), c)
+        init_k = getitem(init, const(k)) if k is not None else init
+        res = dict(self._n(init_k))
+        for a, c in out.items():
+            res[a] = c_add(res.get(a, ZERO), c)
+        return f_clean(res)
 
     # ----------------------------------------------------------------- einsum
     def _fresh_letter(self) -> str:
